@@ -627,6 +627,27 @@ class Run(RunBase):
             self.shadow = (self.sc, self.m.clone())
         if op["how"] == "pickle":
             self.sc = pickle.loads(pickle.dumps(self.sc))
+        elif op["how"] == "rebuild":
+            # the same map assembled again element by element; the lanelets are added with rtree=False throughout (the
+            # documented bulk mode), so the spatial index of the new network is never built - removals and cut-outs do
+            # not need it
+            old = self.net
+            new = LaneletNetwork()
+            try:
+                for la in old.lanelets:
+                    new.add_lanelet(copy.deepcopy(la), rtree=False)
+                for x in old.traffic_signs:
+                    new.add_traffic_sign(copy.deepcopy(x), set())
+                for x in old.traffic_lights:
+                    new.add_traffic_light(copy.deepcopy(x), set())
+                for x in old.intersections:
+                    new.add_intersection(copy.deepcopy(x))
+                sc = build.build_scenario({"sid": {"country": "DEU"}})
+                sc.add_objects(new)
+            except Exception as e:  # noqa
+                raise Violation("C10/rebuild-raised/restart", f"assembling the network again raised "
+                                                              f"{type(e).__name__}: {e}")
+            self.sc = sc
         else:
             self.sc = copy.deepcopy(self.sc)
         self._check(op)
@@ -712,7 +733,7 @@ def _restarter(rng, run, cfg):
         if run.shadow is not None and rng.chance(0.5):
             yield {"op": "swap"}
         else:
-            yield {"op": "restart", "how": rng.pick(["pickle", "deepcopy"]), "keep": rng.chance(0.5)}
+            yield {"op": "restart", "how": rng.pick(["pickle", "deepcopy", "rebuild"]), "keep": rng.chance(0.5)}
 
 
 class C10(Property):
